@@ -254,6 +254,11 @@ class Check:
         the whole check inconclusive."""
         import multiprocessing as mp
         jobs = jobs or int(os.environ.get('VERIF_JOBS', '14'))
+        if os.environ.get('VERIF_UNITS_EXACT'):
+            # debugging aid: exactly these units, in this order
+            want = json.loads(os.environ['VERIF_UNITS_EXACT'])
+            nm = lambda u: u[0] if isinstance(u, (tuple, list)) else u
+            units = [u for w in want for u in units if nm(u) == w]
         # artefacts are built once, before forking
         self.program()
         artifacts.ensure_bridge()
@@ -361,6 +366,9 @@ def _unit_worker(a):
     sub = Check(pid, level, argv=[tier])
     sub._prog = _PROG_CACHE.setdefault('p', {})
     t_unit = time.time()
+    if os.environ.get('VERIF_TRACE_UNITS'):
+        with open(os.environ['VERIF_TRACE_UNITS'], 'a') as fh:
+            fh.write('%d\t%s\n' % (os.getpid(), json.dumps(unit[0] if isinstance(unit, (tuple, list)) else unit, default=str)[:200]))
     try:
         fn(sub, unit)
     except (Unsupported, Inconclusive, BoundExceeded) as e:
